@@ -108,6 +108,8 @@ class Adapter:
     def arrays(self, rows):
         t = (np.array([r['t'] for r in rows], dtype='float64').reshape(len(rows), self.c['S']) * self.scale).astype(self.dtype)
         ddt = 'uint8' if self.kind == 'dpa' else 'int32' if (rows and min(min(r['d']) for r in rows) < 0) else 'uint16'
+        if self.kind == 'cpa' and ddt == 'uint16' and rows and max(max(r['d']) for r in rows) <= 255 and len(rows) % 2 == 1:
+            ddt = 'uint8'              # byte-valued intermediate data in their natural type (every other batch size)
         d = np.array([r['d'] for r in rows], dtype=ddt).reshape(len(rows), self.c['W'])
         return t, d
 
